@@ -2,7 +2,8 @@ import CoapVerif.Model.Parse
 import CoapVerif.Spec.StreamWs
 /-
 M (WebSocket part of C05) — faithful model of the CoAP-over-WebSockets reader AFTER the `fix:` commits
-(long handshake line, 2-byte messages, empty frame, payload kept in ws->rx_data, frames left in rd_header):
+(long handshake line, 2-byte messages, empty frame, payload kept in ws->rx_data, frames left in rd_header,
+header line that starts with its separator):
 
   coap_ws_split_rd_header, coap_ws_rd_http_header_server/_client, coap_ws_rd_http_header   src/coap_ws.c
   coap_ws_read                                                                              src/coap_ws.c
@@ -14,7 +15,8 @@ rd_header[14]; the payload buffer `data` belongs to the CALLER (coap_read_sessio
 a fresh local of every call — only `rxData` (ws->rx_data) survives between calls.
 Oracles (not modelled): SHA-1/base64 of the accept hash (`accept` = the expected header value),
 base64-decoding of the key (`keyOk`), coap_ws_close's draining of the socket after the close frame was sent.
-C strings: the generator never puts a NUL byte into the handshake.
+C strings: `lfIdx` = strchr(http_hdr, LF) stops at a NUL byte, so a line handed to the per-line checks never
+contains one.
 -/
 namespace Coap.M.Ws
 open Coap Coap.M Coap.Spec.Stream.Ws
@@ -45,11 +47,13 @@ def idxOf (c : UInt8) : Bytes → Option Nat
   | [] => none
   | b :: r => if b = c then some 0 else (idxOf c r).map (· + 1)
 
-/-- `coap_ws_split_rd_header`: (index of the separator, name, value) -/
+/-- `coap_ws_split_rd_header`: (index of the separator, name, value); NULL without a separator and (fix: the
+terminator used to be written at `http_hdr[0]`, which made the line look empty) when the line starts with it -/
 def splitHdr (line : Bytes) : Option (Nat × Bytes × Bytes) :=
   match (match idxOf 32 line with | some i => some i | none => idxOf 9 line) with
   | none => none
-  | some i => some (i, line.take i, (line.drop (i + 1)).dropWhile isBlank)
+  | some 0 => none
+  | some (i + 1) => some (i + 1, line.take (i + 1), (line.drop (i + 2)).dropWhile isBlank)
 
 /-- atoi() on a value that starts with digits -/
 def atoi (v : Bytes) : Nat :=
@@ -147,15 +151,13 @@ def lineLoop (mode : Mode) (accept : Bytes) : (fuel : Nat) → St → Lines
       let raw := st.httpHdr.take i
       let line := if raw.getLast? = some 13 then raw.dropLast else raw
       let rem := st.httpHdr.drop (i + 1)
-      -- a non-empty line goes through the per-line checks; they may put a NUL at index 0 (separator first)
+      -- a non-empty line goes through the per-line checks; `http_hdr[0] == 0` is tested again after them, but
+      -- they write a NUL only behind a non-empty header name (`splitHdr`), so `http_hdr[0]` is unchanged
       let r : Option (Seen × Bool) :=
         if line = [] then some (st.seen, true)
         else match lineOk mode accept st.seen line with
           | none => none
-          | some s' =>
-            let sepFirst := (st.seen.first || mode = .client) &&
-              (match splitHdr line with | some (0, _, _) => true | _ => false)
-            some (s', sepFirst)
+          | some s' => some (s', false)
       match r with
       | none => .fail
       | some (s', endLine) =>
@@ -321,5 +323,43 @@ def feed (mode : Mode) (accept : Bytes) : St → List Bytes → List Msg × Sess
     match feedChunk mode accept (6 * (c.length + 1)) 0 st c with
     | (ms, .open st', false) => let r := feed mode accept st' cs; (ms ++ r.1, r.2.1, r.2.2)
     | r => r
+
+/-! ### `coap_ws_close`: draining the socket for the peer's Close frame -/
+
+/-- sizeof(buf) in coap_ws_close -/
+def drainBuf : Nat := 100
+/-- `count = 5` in coap_ws_close -/
+def drainCount : Nat := 5
+
+/-- `ws->recv_close` after a `coap_ws_read` call: set exactly when the call left through the "Close received" exit,
+i.e. the header just completed in `rd_header` is a Close frame (the other `.closed` exits: 1002 — unmasked frame to a
+server, 1003 — opcode neither binary nor close, 1009 — `all_hdr_in` already set) -/
+def recvCloseOf (mode : Mode) (ret : Ret) (st : St) : Bool :=
+  match ret, st.rdHeader with
+  | .closed, b0 :: b1 :: _ =>
+    !st.allHdrIn && !(mode = .server && !(b1.toNat / 128 = 1)) && b0.toNat % 16 = 8
+  | _, _ => false
+
+/-- the `while (!recv_close && count > 0 && coap_netif_available(session))` loop of `coap_ws_close`, entered with
+`sent_close` set (so `coap_ws_read` does not call `coap_ws_close` again — its `.closed` exits just return 0):
+select() on the socket, `coap_ws_read(session, buf, sizeof(buf))` if it is readable, `count--`.
+Returns (recv_close, state, bytes still unread, number of `coap_ws_read` calls made). -/
+def closeDrain (mode : Mode) : (count : Nat) → St → Bytes → Bool × St × Bytes × Nat
+  | 0, st, av => (false, st, av, 0)
+  | c + 1, st, av =>
+    if av.length = 0 then
+      let r := closeDrain mode c st av         -- select() times out, nothing is read
+      (r.1, r.2.1, r.2.2.1, r.2.2.2)
+    else
+      match readFrame mode drainBuf (av.length + fsCap + 2) st av with
+      | (ret, st', av') =>
+        if recvCloseOf mode ret st' then (true, st', av', 1)
+        else
+          let r := closeDrain mode c st' av'
+          (r.1, r.2.1, r.2.2.1, r.2.2.2 + 1)
+
+/-- `coap_ws_close` on an open session whose handshake is done (`up`), called by the application while `av` is
+available on the socket: the Close frame is written, `sent_close` set, then the drain loop -/
+def wsClose (mode : Mode) (st : St) (av : Bytes) : Bool × St × Bytes × Nat := closeDrain mode drainCount st av
 
 end Coap.M.Ws
